@@ -228,6 +228,25 @@ pub mod extras {
                         format!("{:?}", d.im_after(v).map_err(|e| (e.kind(), e.raw_os_error()))), format!("{:?}", objm.im_after(v).map_err(|e| (e.kind(), e.raw_os_error()))));
             }
         }
+        // the vtable entry itself, called the way a foreign caller does, with an output slot that already holds something:
+        // Ok = code 0 and the slot written; Err = a non-zero code and every byte of the slot left as it was
+        {
+            use cglue::trait_group::GetContainer;
+            let codes = [0i32, 2, 1, 13, -1, -21, 0x10001];
+            let obj = trait_obj!(Irs(9) as IrMix);
+            let f = obj.get_vtbl().ir_pay();
+            for v in codes {
+                let mut slot = core::mem::MaybeUninit::<u64>::new(0xDEAD_BEEF_0BAD_CAFE);
+                let code = unsafe { f(obj.ccont_ref(), v, &mut slot) };
+                let after = unsafe { slot.assume_init() };
+                let want = match Irs(9).ir_pay(v) {
+                    Ok(x) => format!("code 0, slot {:#x}", x),
+                    Err(_) => format!("code non-zero, slot {:#x}", 0xDEAD_BEEF_0BAD_CAFEu64),
+                };
+                let got = format!("code {}, slot {:#x}", if code == 0 { "0" } else { "non-zero" }, after);
+                same_ir(rep, "int_result vtable entry called with a pre-loaded output slot", want, got);
+            }
+        }
         // wrapped owned child with its own state; the parent stays usable
         {
             let mut d = Sp(1);
